@@ -225,3 +225,96 @@ def module_int_constants(src, wanted):
                 and isinstance(n.value.value, int) and not isinstance(n.value.value, bool):
             out[n.targets[0].id] = n.value.value
     return out
+
+
+# ---------------------------------------------------------------------------------------------
+# loop nests that fill an integer table:  for x in range(a, b): ... T[i, j] = e
+class LTr(GTr):
+    """expressions of table-filling loops: adds binom(a, b) and sum(e for m in range(a, b))"""
+
+    def expr(self, e):
+        if isinstance(e, ast.Call) and isinstance(e.func, ast.Name) and not e.keywords:
+            if e.func.id == 'binom' and len(e.args) == 2:
+                return '(binomZ %s %s)' % (self.expr(e.args[0]), self.expr(e.args[1]))
+            if e.func.id == 'sum' and len(e.args) == 1 and isinstance(e.args[0], ast.GeneratorExp):
+                g = e.args[0]
+                if len(g.generators) == 1 and not g.generators[0].ifs and not g.generators[0].is_async \
+                        and isinstance(g.generators[0].target, ast.Name):
+                    lo, hi = self.range_of(g.generators[0].iter)
+                    return '(zsum (fun v_%s => %s) %s %s)' % (g.generators[0].target.id, self.expr(g.elt), lo, hi)
+        return super().expr(e)
+
+    def range_of(self, it):
+        if isinstance(it, ast.Call) and isinstance(it.func, ast.Name) and it.func.id == 'range' and not it.keywords:
+            if len(it.args) == 1:
+                return '(0)', self.expr(it.args[0])
+            if len(it.args) == 2:
+                return self.expr(it.args[0]), self.expr(it.args[1])
+        raise Unsupported('loop range ' + ast.dump(it)[:100])
+
+    def stmts(self, ss, table):
+        """a statement list -> Gallina list of (row, col, value) assignments, in program order"""
+        if not ss:
+            return '[]'
+        st, rest = ss[0], ss[1:]
+        if isinstance(st, ast.For) and isinstance(st.target, ast.Name) and not st.orelse:
+            lo, hi = self.range_of(st.iter)
+            return '((flat_map (fun v_%s => %s) (zrange %s %s)) ++ %s)' % (
+                st.target.id, self.stmts(st.body, table), lo, hi, self.stmts(rest, table))
+        if isinstance(st, ast.Assign) and len(st.targets) == 1:
+            tg = st.targets[0]
+            if isinstance(tg, ast.Name):
+                if tg.id == table:
+                    raise Unsupported('table rebound')
+                return '(let v_%s := %s in %s)' % (tg.id, self.expr(st.value), self.stmts(rest, table))
+            if isinstance(tg, ast.Subscript) and isinstance(tg.value, ast.Name) and tg.value.id == table:
+                sl = tg.slice
+                if isinstance(sl, ast.Tuple) and len(sl.elts) == 2:
+                    return '([(%s, %s, %s)] ++ %s)' % (self.expr(sl.elts[0]), self.expr(sl.elts[1]),
+                                                        self.expr(st.value), self.stmts(rest, table))
+        raise Unsupported('loop statement ' + ast.dump(st)[:120])
+
+
+def translate_table_loops(src, fname, table, flag, prefix='py_'):
+    """The reference-path branch of a function of the shape
+           T = numpy.zeros((rows, cols), ...) ; [if T.size == 0: return T] ;
+           if <flag> and ...: <accelerated call>  else: <loop nest assigning T[i, j]> ; return T
+    -> Definition <prefix><fname>_assigns (args) : list (Z * Z * Z), plus the declared shape."""
+    tree = ast.parse(src)
+    fdefs = {n.name: n for n in tree.body if isinstance(n, ast.FunctionDef)}
+    if fname not in fdefs:
+        raise Unsupported('function not found')
+    fdef = fdefs[fname]
+    args = [a.arg for a in fdef.args.args]
+    body = list(fdef.body)
+    if body and isinstance(body[0], ast.Expr) and isinstance(body[0].value, ast.Constant) \
+            and isinstance(body[0].value.value, str):
+        body = body[1:]
+    tr = LTr({})
+    # T = numpy.zeros((r, c), ...)
+    st = body[0]
+    if not (isinstance(st, ast.Assign) and len(st.targets) == 1 and isinstance(st.targets[0], ast.Name)
+            and st.targets[0].id == table and isinstance(st.value, ast.Call)
+            and isinstance(st.value.func, ast.Attribute) and st.value.func.attr == 'zeros'
+            and st.value.args and isinstance(st.value.args[0], ast.Tuple) and len(st.value.args[0].elts) == 2):
+        raise Unsupported('table allocation')
+    shape = [tr.expr(x) for x in st.value.args[0].elts]
+    rest = body[1:]
+    # optional early return for an empty table
+    if rest and isinstance(rest[0], ast.If) and not rest[0].orelse and len(rest[0].body) == 1 \
+            and isinstance(rest[0].body[0], ast.Return) and isinstance(rest[0].test, ast.Compare) \
+            and isinstance(rest[0].test.left, ast.Attribute) and rest[0].test.left.attr == 'size':
+        rest = rest[1:]
+    if not (len(rest) == 2 and isinstance(rest[0], ast.If) and isinstance(rest[1], ast.Return)
+            and isinstance(rest[1].value, ast.Name) and rest[1].value.id == table):
+        raise Unsupported('function shape')
+    names = {n.id for n in ast.walk(rest[0].test) if isinstance(n, ast.Name)}
+    if flag not in names or not rest[0].orelse:
+        raise Unsupported('path switch')
+    lst = tr.stmts(rest[0].orelse, table)
+    sig = ' '.join('(v_%s : Z)' % a for a in args)
+    name = prefix + fname.lstrip('_')
+    out = 'Definition %s_rows %s : Z := %s.\n' % (name, sig, shape[0])
+    out += 'Definition %s_cols %s : Z := %s.\n' % (name, sig, shape[1])
+    out += 'Definition %s_assigns %s : list (Z * Z * Z) :=\n  %s.\n' % (name, sig, lst)
+    return out
